@@ -194,6 +194,9 @@ REPORTED = [  # inputs on which the pinned tree escaped with an internal excepti
     ("id", "a ((2 3)...) -> a", [(3, 6)], {}), ("id", "(a (2 3)...) -> a", [(18,)], {}),                        # NameError: numpy used without import in stage1/tree.py
     ("id", "(([a]) + b) -> b", [(5,)], {"a": 2}), ("solve_axes", "(([a]) + b)", [(5,)], {}), ("solve_axes", "((a [b]) + c)", [(5,)], {"a": 1, "b": 2}),  # AssertionError: brackets inside a concatenation operand
     ("id", "a b -> b a", [(2, 3)], {"a": -1}), ("id", "a... -> a...", [(2, 3)], {"a": (2, -3)}), ("solve_axes", "a b", [(2, 3)], {"a": -2}),            # SyntaxError about the generated text '-1'
+    ("id", "a b -> b a", [(2, 3)], {"a": 2 ** 63}), ("solve_shapes", "a b", [(2, 3)], {"a": 2 ** 64 - 3}), ("sum", "a [b]", [(2, 3)], {"b": 2 ** 63 + 3}),   # sizes in [2**63, 2**64) wrapped negative -> SyntaxError about generated text
+    ("get_at", "a [b], p, p, p -> a p", [(2, 3), (1,), (1,), (1,)], {}), ("get_at", "[a b], [2], [1] ->", [(2, 3), (2,), (1,)], {}),                          # AttributeError while building the SemanticError
+    ("add_at", "a [b], p, p, p, p -> a [b]", [(2, 3), (1,), (1,), (1,), (1,)], {}),
 ]
 GROUP_UNDER_ELLIPSIS = [("solve_axes", "[a b]...", [(2, 3)], {}), ("solve_shapes", "[a b]... c", [(2, 3, 4)], {}), ("solve_axes", "a [b c]...", [(2, 3, 4)], {})]
 ZERO_SIZED_UPDATES = [("set_at", "a [b", [(2, 3), (0, 1), (0,)]), ("add_at", "a [b], p [1] -> a [b]", [(2, 3), (0, 1), (0,)]), ("subtract_at", "a [b], p [1], p q -> a [b]", [(2, 3), (0, 1), (0,)]),
@@ -205,11 +208,11 @@ def reported_cases():
     import einx
     out = []
     for op, d, shapes, kw in REPORTED:
-        ts = [np.zeros(s) for s in shapes]
+        ts = [np.zeros(s, dtype=int) if op.endswith("_at") and 0 < i < len(shapes) - (0 if op == "get_at" else 1) else np.zeros(s) for i, s in enumerate(shapes)]
         r = classify(lambda: getattr(einx, op)(d, *ts, **kw))
         if r[0] == "ok":
             r = ("accepted", "returned a value", "-", "a call that is ill-formed was computed instead of rejected")
-        elif r[0] == "rejected" and r[1] == "SyntaxError" and any(isinstance(v, (int, tuple)) and "-" in str(v) for v in kw.values()):
+        elif r[0] == "rejected" and r[1] == "SyntaxError" and any(isinstance(v, (int, tuple)) and ("-" in str(v) or (isinstance(v, int) and v >= 2 ** 63)) for v in kw.values()):
             r = ("internal", "einx.errors.SyntaxError", "-", "a negative size keyword is reported as a syntax error about text the caller did not write")
         out.append((r, {"op": op, "description": d, "shapes": [list(s) for s in shapes], "kwargs": {k: str(v) for k, v in kw.items()}, "edit": "regression list", "seed_call": d}))
     return out
